@@ -185,8 +185,27 @@ Proof.
   - apply weave_quiet.
 Qed.
 
-Theorem qcheck_is_check c : qcheck c = check (q_c c).
-Proof. unfold qcheck, check, qmodel_agrees, model_agrees. rewrite q_model_is_model. reflexivity. Qed.
+Theorem q_term_model_nil c : q_term_model c = [].
+Proof. unfold q_term_model. apply weave_quiet. Qed.
+
+Theorem qcheck_is_check c :
+  (q_redirected c = true -> q_term c = []) -> qcheck c = check (q_c c).
+Proof.
+  intros Hr. unfold qcheck. destruct (q_redirected c).
+  - rewrite q_term_model_nil, (Hr eq_refl).
+    replace (toks_eqb [] []) with true by reflexivity.
+    cbn [is_nil]. rewrite !andb_true_r. reflexivity.
+  - unfold check, qmodel_agrees, model_agrees. rewrite q_model_is_model. reflexivity.
+Qed.
+
+(** redirected, the other direction: a terminal that received anything fails the check *)
+Theorem qcheck_redirected_term c :
+  q_redirected c = true -> q_term c <> [] -> (2 <= qcheck c)%nat.
+Proof.
+  intros Hr Hn. unfold qcheck. rewrite Hr.
+  destruct (q_term c) as [|x l]; [congruence|]. cbn [is_nil]. rewrite andb_false_r.
+  destruct (model_agrees (q_c c) && _); cbn; lia.
+Qed.
 
 (** ** the excluded variant *)
 
